@@ -117,8 +117,7 @@ impl Vector3 {
     /// Euclidean norm (idealised: exact square root)
     #[verifier::external_body]
     pub fn norm(&self) -> (r: f64)
-        ensures self.vfin() ==> fin(r) && rv(r) >= 0real && rv(r) * rv(r) == vnorm2(self.v()),
-                !self.vfin() ==> !fin(r),
+        ensures r == norm_s(*self),
     { unimplemented!() }
 }
 impl Translation3 {
@@ -158,6 +157,12 @@ impl UnitQuaternion {
     { unimplemented!() }
 }
 pub uninterp spec fn angle_between(a: M3, b: M3) -> real;
+pub uninterp spec fn norm_s(v: Vector3) -> f64;
+pub broadcast axiom fn ax_norm(v: Vector3)
+    ensures
+        #![trigger norm_s(v)]
+        v.vfin() ==> fin(norm_s(v)) && rv(norm_s(v)) >= 0real && rv(norm_s(v)) * rv(norm_s(v)) == vnorm2(v.v()),
+        !v.vfin() ==> !fin(norm_s(v));
 
 impl Rotation3 {
     #[verifier::external_body]
@@ -188,10 +193,18 @@ impl Matrix3 {
 // need them declare a substitution (rule S) that dereferences the Copy operand.
 pub uninterp spec fn mat_mul_s(a: Matrix3, b: Matrix3) -> Matrix3;
 pub uninterp spec fn mat_scale_s(k: f64, b: Matrix3) -> Matrix3;
-pub uninterp spec fn mat_vec_s(a: Matrix3, v: Vector3) -> Vector3;
-pub uninterp spec fn vec_add_s(a: Vector3, b: Vector3) -> Vector3;
-pub uninterp spec fn vec_sub_s(a: Vector3, b: Vector3) -> Vector3;
-pub uninterp spec fn vec_scale_s(k: f64, b: Vector3) -> Vector3;
+// (components are separate f64-valued functions: Verus knows the type of a field only then)
+pub uninterp spec fn mat_vec_s_c(a: Matrix3, v: Vector3, i: int) -> f64;
+pub open spec fn mat_vec_s(a: Matrix3, v: Vector3) -> Vector3 { Vector3 { x: mat_vec_s_c(a, v, 0), y: mat_vec_s_c(a, v, 1), z: mat_vec_s_c(a, v, 2) } }
+// (components are separate f64-valued functions: Verus knows the type of a field only then)
+pub uninterp spec fn vec_add_s_c(a: Vector3, b: Vector3, i: int) -> f64;
+pub open spec fn vec_add_s(a: Vector3, b: Vector3) -> Vector3 { Vector3 { x: vec_add_s_c(a, b, 0), y: vec_add_s_c(a, b, 1), z: vec_add_s_c(a, b, 2) } }
+// (components are separate f64-valued functions: Verus knows the type of a field only then)
+pub uninterp spec fn vec_sub_s_c(a: Vector3, b: Vector3, i: int) -> f64;
+pub open spec fn vec_sub_s(a: Vector3, b: Vector3) -> Vector3 { Vector3 { x: vec_sub_s_c(a, b, 0), y: vec_sub_s_c(a, b, 1), z: vec_sub_s_c(a, b, 2) } }
+// (components are separate f64-valued functions: Verus knows the type of a field only then)
+pub uninterp spec fn vec_scale_s_c(k: f64, b: Vector3, i: int) -> f64;
+pub open spec fn vec_scale_s(k: f64, b: Vector3) -> Vector3 { Vector3 { x: vec_scale_s_c(k, b, 0), y: vec_scale_s_c(k, b, 1), z: vec_scale_s_c(k, b, 2) } }
 pub uninterp spec fn iso_mul_s(a: Isometry3, b: Isometry3) -> Isometry3;
 
 impl core::ops::Mul<Matrix3> for Matrix3 { type Output = Matrix3; #[verifier::external_body] fn mul(self, rhs: Matrix3) -> Matrix3 { unimplemented!() } }
@@ -263,7 +276,7 @@ pub broadcast axiom fn ax_iso_mul(a: Isometry3, b: Isometry3)
     ensures (#[trigger] iso_mul_s(a, b)).wf(), iso_mul_s(a, b).view() == iso_mul(a.view(), b.view());
 
 pub broadcast group group_na {
-    ax_mat_mul, ax_mat_scale, ax_mat_vec, ax_vec_add, ax_vec_sub, ax_vec_scale, ax_iso_mul,
+    ax_mat_mul, ax_mat_scale, ax_mat_vec, ax_vec_add, ax_vec_sub, ax_vec_scale, ax_iso_mul, ax_norm,
 }
 
 } // mod na
